@@ -68,6 +68,10 @@ func updateGraph(dg *dot.Graph, err error) error {
 		if ev, ok := err.(errVisualizer); ok {
 			errs = append(errs, ev)
 		}
+		if _, ok := err.(errConstructorFailed); ok {
+			// What is below is the constructor's own error.
+			break
+		}
 		e := errors.Unwrap(err)
 		if e == nil {
 			break
@@ -174,6 +178,10 @@ func CanVisualizeError(err error) bool {
 	for {
 		if _, ok := err.(errVisualizer); ok {
 			return true
+		}
+		if _, ok := err.(errConstructorFailed); ok {
+			// What is below is the constructor's own error.
+			break
 		}
 		e := errors.Unwrap(err)
 		if e == nil {
